@@ -38,8 +38,8 @@ THEOREMS = [
     'Filters/SerializerFacts.v: serialize_total, re_split_concat, serialize_keeps_quoted',
     'Filters/SerializerSpecFacts.v: match_cap_spec, re_split_spec, sun_spec, serialize_spec (SPLIT_REGEX = a direct scanner), sx_chars',
     'Filters/WsExamples.v: IndexError witnesses, stripws_idem_refuted, format_sw_fixed_point_refuted, stripws_flat_nf_refuted, '
-    'stripws_no_trailing_ws_refuted, stripws_paren_blank_refuted, spaces_idem_refuted, format_sp_fixed_point_refuted, '
-    'spaces_nf_strict_refuted, spaces_flat_nf_refuted, c06_*_refuted (11 inputs)']
+    'stripws_no_trailing_ws_refuted, stripws_paren_blank_refuted, format_sp_fixed_point_refuted, '
+    'spaces_flat_nf_refuted, c06_*_refuted (11 inputs)']
 TRUSTED = ['hand-written models of StripWhitespaceFilter, SpacesAroundOperatorsFilter, StripTrailingSemicolonFilter, '
            'SerializerUnicode/split_unquoted_newlines, FilterStack.run are tied to the code by the differential runs below; '
            'SPLIT_REGEX / LINE_MATCH are translated (tools/regen/gen_split_regex.py, fail-closed on a changed function body)']
@@ -395,7 +395,40 @@ def _has_go(text):
         return False
 
 
+def _operator_after_comment_group(text):
+    """in parse(text) an Operator / Comparison token directly follows a Comment GROUP (which owns the line breaks after the
+    comment): its previous sibling is then no whitespace token although a line break is written in front of it"""
+    import sqlparse
+    from sqlparse import sql, tokens as T
+    try:
+        stmts = sqlparse.parse(text)
+    except Exception:  # noqa
+        return False
+
+    def walk(g):
+        prev = None
+        for t in g.tokens:
+            # the previous sibling is a GROUP that ends with a Comment group (the comment itself, or the Identifier /
+            # Function / ... that align_comments attached it to) whose text ends in white space (a Newline child, or the
+            # line end inside a `--` comment token)
+            if t.ttype in (T.Operator, T.Comparison) and prev is not None and prev.is_group and str(prev)[-1:].isspace():
+                x = prev
+                while x is not None and x.is_group:
+                    if isinstance(x, sql.Comment):
+                        return True
+                    x = x.tokens[-1] if x.tokens else None
+            if t.is_group and walk(t):
+                return True
+            prev = t
+        return False
+    return any(walk(s) for s in stmts)
+
+
 CLASS_PRED = {
+    # use_space_around_operators, text level: the comment's Comment group takes the line break that follows it; in the
+    # re-parsed output the operator's previous sibling is that group, not a whitespace token: a blank is added on the 2nd run
+    'sp-not-fixed-point-after-comment': lambda f: f.get('kind') == 'not_fixed_point:sp'
+    and _operator_after_comment_group(f.get('output') or ''),
     # strip_whitespace is not a fixed point: (a) a line break before a comma is removed AFTER blanks were collapsed
     # ('a  ,b' -> 'a ,b' -> 'a,b'); (b) a comment swallows the line breaks that follow it
     'sw-not-fixed-point-comma-or-comment': lambda f: f.get('kind') == 'not_fixed_point:sw'
